@@ -23,7 +23,7 @@ CONSTANTS
   DtSet = {}
   InitBal = 0
   TraceFile = "trace.ndjson"
-  Owned = {"CreateTunnel", "UpdateSignals", "UpdateRoute", "Trigger", "EndBlock"}
+  Owned = {"CreateTunnel", "UpdateSignals", "UpdateRoute", "Trigger", "Activate", "Deactivate", "EndBlock"}
   Checked = {"count", "cfg", "active", "activeIdx", "seq", "latest", "lastInt", "pkts", "feeBal", "tssBal", "totalFees"}
   EBChecked = {"count", "cfg", "active", "activeIdx", "seq", "latest", "lastInt", "pkts", "feeBal", "tssBal", "totalFees", "ev", "frame"}
 SPECIFICATION TraceSpec
